@@ -6842,30 +6842,13 @@ impl RelationalEngine {
             .or_insert_with(|| AtomicU64::new(0))
             .fetch_max(row_id, Ordering::Relaxed);
 
-        // Update indexes
         let indexed_columns = self.get_table_indexes(table);
-        for col in &indexed_columns {
-            if col == "_id" {
-                self.index_add(table, col, &Value::Int(row_id as i64), row_id)?;
-            } else {
-                // an omitted nullable column is stored as NULL and must be indexed as such
-                let value = values.get(col).unwrap_or(&Value::Null);
-                self.index_add(table, col, value, row_id)?;
-            }
-        }
-
         let btree_columns = self.get_table_btree_indexes(table);
-        for col in &btree_columns {
-            if col == "_id" {
-                self.btree_index_add(table, col, &Value::Int(row_id as i64), row_id)?;
-            } else {
-                // an omitted nullable column is stored as NULL and must be indexed as such
-                let value = values.get(col).unwrap_or(&Value::Null);
-                self.btree_index_add(table, col, value, row_id)?;
-            }
-        }
 
-        // Capture index entries for rollback (must happen AFTER index updates)
+        // Capture the index entries this insert is going to create and record the undo entry
+        // BEFORE touching the indexes: if index maintenance fails half-way (e.g. the ordered
+        // index is full) the row and the entries added so far must still be rolled back.
+        // Removing an entry that was never added is a no-op.
         let mut index_entries: Vec<(String, Value)> = Vec::new();
         for col in indexed_columns.iter().chain(btree_columns.iter()) {
             if col == "_id" {
@@ -6877,7 +6860,6 @@ impl RelationalEngine {
             }
         }
 
-        // Record undo entry
         self.tx_manager.record_undo(
             tx_id,
             UndoEntry::InsertedRow {
@@ -6887,6 +6869,27 @@ impl RelationalEngine {
                 index_entries,
             },
         );
+
+        // Update indexes
+        for col in &indexed_columns {
+            if col == "_id" {
+                self.index_add(table, col, &Value::Int(row_id as i64), row_id)?;
+            } else {
+                // an omitted nullable column is stored as NULL and must be indexed as such
+                let value = values.get(col).unwrap_or(&Value::Null);
+                self.index_add(table, col, value, row_id)?;
+            }
+        }
+
+        for col in &btree_columns {
+            if col == "_id" {
+                self.btree_index_add(table, col, &Value::Int(row_id as i64), row_id)?;
+            } else {
+                // an omitted nullable column is stored as NULL and must be indexed as such
+                let value = values.get(col).unwrap_or(&Value::Null);
+                self.btree_index_add(table, col, value, row_id)?;
+            }
+        }
 
         Ok(row_id)
     }
